@@ -14,12 +14,16 @@ Put(f, k, v) == TLCEval([x \in (DOMAIN f) \cup {k} |-> IF x = k THEN v ELSE f[x]
 Range(s) == {s[i] : i \in DOMAIN s}
 
 ObsInit == [cfg |-> [props |-> <<>>, clients |-> <<>>], up |-> <<>>, everUp |-> {}, sub |-> <<>>, got |-> <<>>, gotN |-> <<>>, subN |-> <<>>,
-            asked |-> <<>>, cst |-> <<>>, healed |-> FALSE, rounds |-> 0, bound |-> 0 - 1, flags |-> {}]
+            asked |-> <<>>, cst |-> <<>>, holder |-> <<>>, healed |-> FALSE, rounds |-> 0, bound |-> 0 - 1, flags |-> {}]
 ObsReset(cfg) == [ObsInit EXCEPT !.cfg = cfg, !.up = [c \in Range(cfg.clients) |-> FALSE],
                                  !.cst = [c \in Range(cfg.clients) |-> "Connecting"]]
 Props(o) == Range(o.cfg.props)
 Flag(o, F) == [o EXCEPT !.flags = @ \cup F]
 FlagIf(o, c, f) == IF c THEN Flag(o, {f}) ELSE o
+
+\* two harness clients may hold tokens for ONE netcode client id (cfg.twins = <<<<client, id>>, ...>>): the id a client acts under
+NetId(o, c) == IF "twins" \in DOMAIN o.cfg /\ \E i \in 1..Len(o.cfg.twins) : o.cfg.twins[i][1] = c
+               THEN o.cfg.twins[CHOOSE i \in 1..Len(o.cfg.twins) : o.cfg.twins[i][1] = c][2] ELSE c
 
 RECURSIVE FoldEvs(_, _, _)
 \* server events: alternation Connected / Disconnected per id
@@ -32,7 +36,7 @@ FoldEvs(o, evs, i) ==
        ELSE LET asked == e.id \in DOMAIN o.asked
                 \* interference alone never disconnects: a disconnect nobody asked for is only legitimate as a timeout
                 spurious == ~asked /\ ~o.cfg.allow_timeouts
-            IN FoldEvs(FlagIf(FlagIf([o EXCEPT !.up = Put(@, e.id, FALSE)], ~was, <<"C20", "EventsOnce">>),
+            IN FoldEvs(FlagIf(FlagIf([o EXCEPT !.up = Put(@, e.id, FALSE), !.holder = [x \in (DOMAIN @) \ {e.id} |-> @[x]]], ~was, <<"C20", "EventsOnce">>),
                               spurious, <<"C20", "OnlyTimeouts">>), evs, i + 1)
 
 ObsSStep(o, e) ==
@@ -63,15 +67,27 @@ ObsSend(o, e) ==
     [o EXCEPT !.sub = Put(@, k, Append(Get(@, k, <<>>), e.cid)), !.subN = Put(@, <<k, e.cid>>, Get(@, <<k, e.cid>>, 0) + 1)]
 
 ObsRecv(o, e) ==
-    LET k == <<e.c, e.dir, e.ch>>
+    LET id == NetId(o, e.c)
+        \* the clients that may legitimately act under this id, and which of them submitted this content on this channel
+        sameId == {x \in Range(o.cfg.clients) : NetId(o, x) = id}
+        subs == {x \in sameId : Get(o.subN, <<<<x, e.dir, e.ch>>, e.cid>>, 0) > 0}
+        x == IF subs # {} THEN CHOOSE y \in subs : TRUE ELSE e.c
+        k == <<x, e.dir, e.ch>>
         g == Append(Get(o.got, k, <<>>), e.cid)
         n == Get(o.gotN, <<k, e.cid>>, 0) + 1
         s == Get(o.sub, k, <<>>)
-        F == (IF Get(o.subN, <<k, e.cid>>, 0) = 0 THEN {<<"C20", "E2E_Same">>} ELSE {})
+        \* C11 across the full stack: a message is obtained only under the id of the client that sent it, and everything obtained
+        \* under one id between its Connected and Disconnected events comes from ONE client (the holder of that session)
+        foreign == e.cid >= 0 /\ subs = {} /\ \E z \in DOMAIN o.subN : z[2] = e.cid /\ z[1][1] \notin sameId
+        h == Get(o.holder, id, 0)
+        mixed == e.dir = "cs" /\ subs # {} /\ h # 0 /\ h # x
+        F == (IF Get(o.subN, <<k, e.cid>>, 0) = 0 \/ mixed THEN {<<"C20", "E2E_Same">>} ELSE {})
+             \cup (IF foreign \/ mixed THEN {<<"C11", "Isolation">>} ELSE {})
              \cup (IF e.ch = 2 /\ ~(Len(g) <= Len(s) /\ s[Len(g)] = e.cid) THEN {<<"C20", "E2E_Ordered">>} ELSE {})
              \* reliable: exactly once; unreliable: at most once (netcode replay protection removes duplicates and replays)
              \cup (IF n > Get(o.subN, <<k, e.cid>>, 0) THEN {<<"C20", "E2E_Once">>} ELSE {})
-    IN Flag([o EXCEPT !.got = Put(@, k, g), !.gotN = Put(@, <<k, e.cid>>, n)], F)
+    IN Flag([o EXCEPT !.got = Put(@, k, g), !.gotN = Put(@, <<k, e.cid>>, n),
+                      !.holder = IF e.dir = "cs" /\ subs # {} /\ h = 0 THEN Put(@, id, x) ELSE @], F)
 
 ObsHeal(o, e) == [o EXCEPT !.healed = TRUE, !.rounds = 0, !.bound = e.bound]
 
